@@ -65,16 +65,17 @@ def run(eng, R):
     # ------------------------------------------------------------------ S-sync
     f = get_func(p, "FitBase", "_update_parameter_formatters")
     src = _txt(f.node)
-    ok = "for _fpf, _pv, _pe in zip(self._get_model_function_parameter_formatters(), self.parameter_values, self.parameter_errors): _fpf.value = _pv _fpf.error = _pe" in src
+    # placeholders: `_f` a formatter, `_v` / `_e` / `_x` what it receives, `_a` the asymmetric errors
+    ok = src.like("for _f, _v, _e in zip(self._get_model_function_parameter_formatters(), self.parameter_values, self.parameter_errors): _f.value = _v _f.error = _e")
     R.ob("S-sync", "FitBase._update_parameter_formatters:values", ok, (f.file, f.lineno), "values and errors must be copied position by position from parameter_values / parameter_errors")
-    ok = "for _fpf, _ape in zip(self._get_model_function_parameter_formatters(), _asymmetric_parameter_errors): _fpf.asymmetric_error = _ape" in src \
-        and "_asymmetric_parameter_errors = self.asymmetric_parameter_errors" in src
+    s2 = common.Src(str(src))
+    ok = s2.all_like("_a = self.asymmetric_parameter_errors", "for _f, _x in zip(self._get_model_function_parameter_formatters(), _a): _f.asymmetric_error = _x")
     R.ob("S-sync", "FitBase._update_parameter_formatters:asymmetric", ok, (f.file, f.lineno), "asymmetric errors must be copied position by position from asymmetric_parameter_errors")
-    ok = "if _asymmetric_parameter_errors is None: _asymmetric_parameter_errors = np.stack([-self.parameter_errors, self.parameter_errors], axis=1)" in src
+    ok = s2.like("if _a is None: _a = np.stack([-self.parameter_errors, self.parameter_errors], axis=1)")
     R.ob("S-sync", "FitBase._update_parameter_formatters:fallback", ok, (f.file, f.lineno), "without asymmetric errors the formatters must get (-err, +err)")
     f = get_func(p, "MultiFit", "_update_parameter_formatters")
     src = _txt(f.node)
-    ok = "for _fit in self._fits: _fit._update_parameter_formatters(update_asymmetric_errors=update_asymmetric_errors)" in src
+    ok = common.like_any(src, "for _m in self._fits: _m._update_parameter_formatters(update_asymmetric_errors)", "for _m in self._fits: _m._update_parameter_formatters(update_asymmetric_errors=update_asymmetric_errors)")
     R.ob("S-sync", "MultiFit._update_parameter_formatters", ok, (f.file, f.lineno), "MultiFit must refresh every member with the same flag")
     f = get_func(p, "FitBase", "do_fit")
     g = eng.cfg(f)
@@ -87,7 +88,8 @@ def run(eng, R):
     for fn, val in (("fix_parameter", "True"), ("release_parameter", "False")):
         f = get_func(p, "FitBase", fn)
         src = _txt(f.node)
-        ok = "_par_index = self.parameter_names.index(name)" in src and "self._get_model_function_parameter_formatters()[_par_index].fixed = %s" % val in src
+        ok = common.like_any(src, "self._get_model_function_parameter_formatters()[self.parameter_names.index(name)].fixed = %s" % val,
+                             ["_i = self.parameter_names.index(name)", "self._get_model_function_parameter_formatters()[_i].fixed = %s" % val])
         g = eng.cfg(f)
         if ok:
             ok, _ = g.all_paths_pass(g.entry.id, lambda n: n.kind == "stmt" and isinstance(n.stmt, ast.Assign) and _txt(n.stmt.targets[0]).endswith(".fixed"))
@@ -130,27 +132,41 @@ def run(eng, R):
                 vals.append(v)
         R.ob("T-live", "FitBase.get_result_dict:%s" % k, vals == [w], (f.file, f.lineno), "result key '%s' must be %s (found %s)" % (k, w, vals))
     src = _txt(f.node)
-    R.ob("T-live", "FitBase.get_result_dict:gof/ndf", "_result_dict['gof/ndf'] = _gof / _ndf if _gof is not None else _gof" in src, (f.file, f.lineno), "gof/ndf must be the quotient of the same two numbers")
+    ok = common.like_any(src, ["_g = self.goodness_of_fit", "_n = self.ndf", "_result_dict['gof/ndf'] = _g if _g is None else _g / _n"],
+                         ["_g = self.goodness_of_fit", "_n = self.ndf", "_result_dict['gof/ndf'] = _g / _n if _g is not None else _g"])
+    R.ob("T-live", "FitBase.get_result_dict:gof/ndf", ok, (f.file, f.lineno), "gof/ndf must be the quotient of the same two numbers (the goodness of fit and the ndf written to the dictionary)")
     R.ob("T-live", "FitBase.get_result_dict:parameter_errors", "for _pn, _pe in zip(self.parameter_names, self.parameter_errors): _parameter_errors[_pn] = _pe" in src
          and "_result_dict['parameter_errors'] = _parameter_errors" in src, (f.file, f.lineno), "parameter_errors must map each name to the uncertainty at the same position")
     R.ob("T-live", "FitBase.get_result_dict:asymmetric", "for _pn, _ape in zip(self.parameter_names, _asymm_errs)" in src, (f.file, f.lineno), "asymmetric errors must be keyed by the name at the same position")
     f = get_func(p, "FitBase", "_report_fit_results")
     src = _txt(f.node)
-    need = {"cost": "_pf.get_formatted(value=self.cost_function_value, with_name=False, format_as_latex=False)", "gof": "_gof_value = self.goodness_of_fit",
-            "gof print": "_pf.get_formatted(value=_gof_value, n_degrees_of_freedom=self.ndf, with_name=False, with_value_per_ndf=True, format_as_latex=False)",
-            "probability": "_chi2_prob = self.chi2_probability", "probability print": "'%schi2 probability = %#.3g\\n\\n' % (indent * (indentation_level + 2), _chi2_prob)",
-            "correlations": "for _par_name, _row in zip(par_display_names, self.parameter_cor_mat.T): _cor_mat_as_dict[_par_name] = np.atleast_1d(np.squeeze(np.asarray(_row)))",
-            "names": "par_display_names = [_pf.name for _pf in self._get_model_function_parameter_formatters()]"}
-    for k, w in need.items():
-        R.ob("T-live", "FitBase._report_fit_results:%s" % k, w in src, (f.file, f.lineno), "the report must print %s from the live fit: `%s`" % (k, w))
+    fmt = [{k.arg: _txt(k.value) for k in c.keywords if k.arg} for c in ast.walk(f.node) if isinstance(c, ast.Call) and isinstance(c.func, ast.Attribute) and c.func.attr == "get_formatted"]
+    gof_locals = {n.targets[0].id for n in ast.walk(f.node) if isinstance(n, ast.Assign) and isinstance(n.targets[0], ast.Name) and _txt(n.value) == "self.goodness_of_fit"}
+    prob_locals = {n.targets[0].id for n in ast.walk(f.node) if isinstance(n, ast.Assign) and isinstance(n.targets[0], ast.Name) and _txt(n.value) == "self.chi2_probability"}
+    checks = {
+        "cost": any(k.get("value") == "self.cost_function_value" and k.get("with_name") == "False" and k.get("format_as_latex") == "False" for k in fmt),
+        "gof": bool(gof_locals) or any(k.get("value") == "self.goodness_of_fit" for k in fmt),
+        "gof print": any((k.get("value") in gof_locals or k.get("value") == "self.goodness_of_fit") and k.get("n_degrees_of_freedom") == "self.ndf" and k.get("with_value_per_ndf") == "True"
+                         and k.get("with_name") == "False" for k in fmt),
+        "probability": bool(prob_locals) or "self.chi2_probability" in src,
+        "probability print": any(src.like("'%%schi2 probability = %%#.3g\\n\\n' %% (indent * (indentation_level + 2), %s)" % v) for v in sorted(prob_locals) + ["self.chi2_probability"]),
+        "correlations": common.like_any(src, "for _n, _r in zip(par_display_names, self.parameter_cor_mat.T): _d[_n] = np.atleast_1d(np.squeeze(np.asarray(_r)))"),
+        "names": common.like_any(src, "par_display_names = [_q.name for _q in self._get_model_function_parameter_formatters()]"),
+    }
+    for k, ok in checks.items():
+        R.ob("T-live", "FitBase._report_fit_results:%s" % k, ok, (f.file, f.lineno), "the report must print %s from the live fit" % k)
     f = get_func(p, "FitYamlWriter", "_get_preface_comment")
     src = _txt(f.node)
-    need = {"gof": "_gof = self._kafe_object.goodness_of_fit", "cost": "_cost = self._kafe_object.cost_function_value", "ndf": "_ndf = self._kafe_object.ndf",
-            "names": "parameter_names=self._kafe_object.parameter_names", "values": "parameter_values=self._kafe_object.parameter_values", "errors": "parameter_errors=self._kafe_object.parameter_errors",
-            "correlations": "parameter_cor_mat=self._kafe_object.parameter_cor_mat", "gof/ndf": "round(_gof / _ndf, _round_gof_per_ndf_sig)", "gof line": "'# %s: %s\\n' % (_gof_name, _gof)",
-            "ndf line": "'# ndf: %s\\n' % _ndf"}
+    gc = [c for c in ast.walk(f.node) if isinstance(c, ast.Call) and isinstance(c.func, ast.Name) and c.func.id == "get_compact_representation"]
+    slot = {"names": ("parameter_names", 0), "values": ("parameter_values", 1), "errors": ("parameter_errors", 2), "correlations": ("parameter_cor_mat", 3)}
+    for k, (pn, pos) in slot.items():
+        ok = len(gc) == 1 and _txt(common.kwarg(gc[0], pn, pos)) == "self._kafe_object.%s" % pn
+        R.ob("T-live", "FitYamlWriter._get_preface_comment:%s" % k, ok, (f.file, f.lineno), "the preface comment must take %s from the live fit (self._kafe_object.%s)" % (k, pn))
+    need = {"gof": ["_g = self._kafe_object.goodness_of_fit"], "cost": ["_c = self._kafe_object.cost_function_value"], "ndf": ["_n = self._kafe_object.ndf"],
+            "gof/ndf": ["_g = self._kafe_object.goodness_of_fit", "_n = self._kafe_object.ndf", "round(_g / _n, _round_gof_per_ndf_sig)"],
+            "gof line": ["_g = self._kafe_object.goodness_of_fit", "'# %s: %s\\n' % (_gof_name, _g)"], "ndf line": ["_n = self._kafe_object.ndf", "'# ndf: %s\\n' % _n"]}
     for k, w in need.items():
-        R.ob("T-live", "FitYamlWriter._get_preface_comment:%s" % k, w in src, (f.file, f.lineno), "the preface comment must take %s from the live fit: `%s`" % (k, w))
+        R.ob("T-live", "FitYamlWriter._get_preface_comment:%s" % k, common.like_any(src, w), (f.file, f.lineno), "the preface comment must take %s from the live fit: `%s`" % (k, w[-1]))
     f = get_func(p, None, "kafe2.tools:get_compact_representation")
     src = _txt(f.node)
     ok = "zip(parameter_names, parameter_values, parameter_errors, _cor_mat_row_strs)" in src and "_row.append(round(_par_val, _sig_fig_val))" in src and "_row.append(round(_par_err, _sig_fig_err))" in src \
@@ -186,25 +202,38 @@ def run(eng, R):
     # ------------------------------------------------------------------ H-dec
     SF = "kafe2.fit._base.format:ScalarFormatter"
     f = get_func(p, SF, "__init__")
-    forms = {ct: x.canon() for ct, x, _ in __import__("kv.rules.formulas", fromlist=["extract"]).extract(f, "assign", "_sig")}
+    from .formulas import extract
+    from ..termform import path_exprs, subst
+
+    def closed(fn, pick):
+        return [Normalizer({}).norm(subst(e, env)).canon() for conds, e, env in path_exprs(fn.node, pick)]
+
+    def calls_in_stmt(st, name):
+        own = [st] if not hasattr(st, "body") else [x for x in (getattr(st, "test", None), getattr(st, "iter", None)) if x is not None]
+        return [c for o in own for c in ast.walk(o) if isinstance(c, ast.Call) and (c.func.attr if isinstance(c.func, ast.Attribute) else getattr(c.func, "id", None)) == name]
+
     want = norm_spec("int(-floor(log10(self._sigma))) + self._n_significant_digits - 1").canon()
-    R.ob("H-dec", "%s.__init__:first estimate" % SF, list(forms.values()) == [want], (f.file, f.lineno), "decimals = n - 1 - floor(log10 sigma) (found %s)" % forms)
-    forms = [x.canon() for ct, x, _ in __import__("kv.rules.formulas", fromlist=["extract"]).extract(f, "assign", "self._sig")]
+    forms = closed(f, lambda st: [c.args[1] for c in calls_in_stmt(st, "around") if len(c.args) > 1])
+    R.ob("H-dec", "%s.__init__:first estimate" % SF, forms == [want], (f.file, f.lineno), "decimals = n - 1 - floor(log10 sigma) (found %s)" % forms)
+    forms = [x.canon() for ct, x, _ in extract(f, "store", "self._sig", node=f.node)]
     want2 = norm_spec("int(-floor(log10(around(self._sigma, int(-floor(log10(self._sigma))) + self._n_significant_digits - 1)))) + self._n_significant_digits - 1").canon()
     R.ob("H-dec", "%s.__init__:after rounding" % SF, forms == [want2], (f.file, f.lineno), "decimals must be recomputed from sigma rounded to the first estimate (0.99 -> 1.0 shifts the decimal place); found %s" % forms)
     f = get_func(p, SF, "__call__")
     src = _txt(f.node)
-    vs = [n for n in ast.walk(f.node) if isinstance(n, ast.Assign) and _txt(n.targets[0]) == "_val_sig"]
-    ok = len(vs) == 2 and Normalizer({}).norm(vs[0].value).canon() == norm_spec("int(self._sig + int(floor(_log_abs_x)) + 1)").canon() and _txt(vs[1].value) == "max(_val_sig, 0)"
-    R.ob("H-dec", "%s.__call__:value digits" % SF, ok, (f.file, f.lineno),
-         "significant digits of the value = decimals + floor(log10|x|) + 1, clipped at 0, independent of the digits shown for the uncertainty (found %s)" % [_txt(v.value) for v in vs])
-    ok = "_rounded_x = abs(np.around(x, self._sig))" in src and "_log_abs_x = -1 if _rounded_x: _log_abs_x = np.log10(np.abs(_rounded_x))" in src \
-        and "_template = '%#.{significance}g'.format(significance=_val_sig) return _template % x" in src
+    # the number of significant digits handed to the %#.<digits>g template, per path (value rounds to zero / not)
+    digs = sorted(closed(f, lambda st: [k.value for c in calls_in_stmt(st, "format") for k in c.keywords if k.arg == "significance"]))
+    R_X = "abs(around(x, self._sig))"
+    exp = sorted([norm_spec("max(int(self._sig + int(floor(-1)) + 1), 0)").canon(), norm_spec("max(int(self._sig + int(floor(log10(abs(%s)))) + 1), 0)" % R_X).canon()])
+    R.ob("H-dec", "%s.__call__:value digits" % SF, digs == exp, (f.file, f.lineno),
+         "significant digits of the value = decimals + floor(log10|x|) + 1, clipped at 0, independent of the digits shown for the uncertainty (found %s)" % digs)
+    R_X = "abs(np.around(x, self._sig))"
+    ok = common.like_any(src, ["_l = -1", "if %s: _l = np.log10(np.abs(%s))" % (R_X, R_X), "return '%#.{significance}g'.format(significance=_d) % x"],
+                         ["_r = %s" % R_X, "_l = -1", "if _r: _l = np.log10(np.abs(_r))", "return '%#.{significance}g'.format(significance=_d) % x"])
     R.ob("H-dec", "%s.__call__:magnitude" % SF, ok, (f.file, f.lineno), "the magnitude must be taken from the value rounded to the decimals (9.996 -> 10.0), with a fallback for zero, and the value printed with %#.<digits>g")
     f = get_func(p, "ParameterFormatter", "get_formatted")
     src = _txt(f.node)
-    ok = "val_formatter = ScalarFormatter(_min_err, n_significant_digits=n_significant_digits)" in src and "_val = val_formatter(value)" in src \
-        and "_err = '%#.{n}g'.format(n=n_significant_digits) % self.error" in src and "_min_err = min(abs(self.error_up), abs(self.error_down))" in src and "_min_err = self.error" in src
+    ok = src.all_like("_vf = ScalarFormatter(_me, n_significant_digits)", "_v = _vf(value)", "_e = '%#.{n}g'.format(n=n_significant_digits) % self.error") \
+        and common.like_any(src, "_me = min(abs(self.error_up), abs(self.error_down)) if asymmetric_error else self.error", ["_me = min(abs(self.error_up), abs(self.error_down))", "_me = self.error"])
     R.ob("H-dec", "ParameterFormatter.get_formatted:rounding", ok, (f.file, f.lineno),
          "the value must be rounded by a ScalarFormatter built from the (smaller) uncertainty and n; the uncertainty printed with exactly n significant digits")
     ok = "_err_u = val_formatter(abs(self.error_up)) _err_d = '%#.{n}g'.format(n=n_significant_digits) % abs(self.error_down)" in src \
